@@ -32,6 +32,22 @@ def generate() -> dict[str, str]:
         skip_prefixes=('local_id = self.neighbor.session.router_id.pack_ip()', 'remote_id = self.proto.negotiated.received_open.router_id.pack_ip()'),
     )
     t = pylite.translate(Peer.handle_connection, spec)
+    # ---- can_reconnect: exabgp.tcp.attempts ------------------------------------------------------------------------
+    afields = {'max_connection_attempts': 'int', 'connection_attempts': 'int'}
+    t2 = pylite.translate(Peer.can_reconnect, pylite.Spec(cls='Attempts', fields=afields, ret='bool', uses_now=False))
+    # ---- _reset: what the end of a session leaves behind ------------------------------------------------------------
+    rfields = {'_restart': 'bool', '_teardown': 'bool', 'closed': 'bool', 'rib_reset': 'bool'}
+    t3 = pylite.translate(
+        Peer._reset,
+        pylite.Spec(
+            cls='Reset', fields=rfields, ret='none', uses_now=False, params={}, object_params=('message', 'error'),
+            opaque={'self.neighbor.ephemeral': ('ephemeral', 'bool')},
+            const_exprs={'None': ('false', 'bool')},  # `_teardown` is looked at for being set or not: a bool field, None = not set
+            effect_methods={'_close': ('closed', 'true'), 'neighbor.reset_rib': ('rib_reset', 'true')},
+            ignore_calls=('log.', 'self.fsm_runner.'),
+            skip_prefixes=('if self._neighbor:',),  # the neighbor definition of a reload is taken over: M-Reload (C17)
+        ),
+    )
     out = [
         '/-! `Peer.handle_connection` of `exabgp/reactor/peer/peer.py`, translated by `harness/pylite.py` (read next to the',
         '    source). `raise c s`: the incoming connection is answered with NOTIFICATION c/s and closed. -/',
@@ -42,6 +58,12 @@ def generate() -> dict[str, str]:
         pylite.lean_state_structure('Peer', fields),
         '',
         t.lean,
+        pylite.lean_state_structure('Attempts', afields),
+        '',
+        t2.lean,
+        pylite.lean_state_structure('Reset', rfields),
+        '',
+        t3.lean,
         'end Exa.Generated.PyPeer',
         '',
     ]
